@@ -2,7 +2,8 @@ SPECIFICATION TraceSpec
 CONSTANTS
   NK = 6
   NV = 4
-  Ops = {"map", "filter_map", "mapi", "filter_mapi", "fold", "fold_rev", "fold_upd", "fold_upd_rev", "merge", "partition", "partition_mapi"}
+  Ops = {"map", "filter_map", "mapi", "filter_mapi", "fold", "fold_rev", "fold_upd", "fold_upd_rev", "merge", "partition", "partition_mapi",
+         "fold_sum", "fold_sum_upd", "chain_fm_map", "chain_fm_fold"}
 VIEW TraceView
 POSTCONDITION TraceAccepted
 CHECK_DEADLOCK FALSE
